@@ -183,7 +183,7 @@ struct Ctx {
     bool all_unchanged() const
     {
         for (auto const& r : regions) {
-            if (std::memcmp(r.p, r.snap.data(), r.n) != 0) { return false; }
+            if (r.n != 0 && std::memcmp(r.p, r.snap.data(), r.n) != 0) { return false; }
         }
         return true;
     }
